@@ -269,4 +269,52 @@ def check(run, replay=None):
                        'station record of 129029.  non-trivial = every case')
     run.assumptions += ['the reference table is my transcription of the public field definitions (DESIGN.md Appendix A); signedness marked "?" there constrains only codes below 2^(N-1)-1',
                         'the IEEE rounding of argument/resolution is tolerated by the oracle (2^-50 relative); NaN and infinity arguments are not judged here (C06)']
-    vlib.correspond(run, 'layouts', 'h_msgs', 'w64', 'C05', cases, oracle, None, canon=p_C05.canon, known=known)
+    preplay = bool(replay) and any(l.startswith('# family: prodinfo-progmem-') for l in open(replay))
+    if not preplay:
+        vlib.correspond(run, 'layouts', 'h_msgs', 'w64', 'C05', cases, oracle, None, canon=p_C05.canon, known=known)
+    # PGN 126996 as a node builds it from a tProductInformation the application hands over by pointer (SetN2kPGN126996Progmem, the one
+    # 126996 setter outside the translated subset; also used for the library's default product information): answers to ISO requests on a
+    # node configured with strings of 0..32 characters (32 = the whole field), decoded against the published layout (seed C15-11)
+    if preplay or not replay:
+        import random
+        from nodesim import parse_case, parse_result, ref_fp_decode
+        r = random.Random(run.seed * 7919 + 1515)
+
+        def hx(n):
+            return bytes(r.choice(b'ABCDEFGHIJKLMNOPQRSTUVWXYZabcdefghijklmnopqrstuvwxyz0123456789 .-/') for _ in range(n)).hex() or '-'
+        pcases = []
+        if preplay:
+            pcases = cases
+        else:
+            combos = [(32, 32, 32, 32), (31, 32, 1, 0), (0, 0, 0, 32), (32, 0, 31, 5), (1, 2, 3, 4)] + [tuple(r.choice([0, 1, 15, 30, 31, 32]) for _ in range(4)) for _ in range(6 if run.tier == 'quick' else 200)]
+            for c in combos:
+                key = r.choice(['pprod', 'pprod', 'prod'])
+                pcases.append('NODE mode=1 ndev=1 src=%d q=40 slots=5 t0=5000 %s=%s | R 18ea%02x32 3 14f001 ; P ; R 18eaff33 3 14f001 ; P' % (
+                    r.choice([22, 0, 100]), key, ','.join(hx(n) for n in c), 0))
+            pcases = [c.replace('18ea0032', '18ea%02x32' % int(c.split('src=')[1].split()[0])) for c in pcases]
+
+        def prod_oracle(case, res):
+            if res.startswith('crash') or res.startswith('oob'):
+                return 'memory:' + res
+            v = [t.split('=', 1)[1] for t in case.split('|')[0].split() if t.startswith('pprod=') or t.startswith('prod=')][0].split(',')
+            s = [bytes.fromhex(x) if x != '-' else b'' for x in v]
+            fld = lambda b: list(b[:32]) + [0xff] * (32 - len(b[:32]))
+            want = [2101 & 255, 2101 >> 8, 666 & 255, 666 >> 8] + fld(s[0]) + fld(s[1]) + fld(s[2]) + fld(s[3]) + [0, 1]
+            per_op, _st = parse_result(res)
+            n = 0
+            for evs in per_op:
+                fr = [e[3] for e in evs if e[0] == 'tx' and ((e[1] >> 8) & 0x1ffff) == 126996]
+                if not fr:
+                    continue
+                try:
+                    _sid, payload = ref_fp_decode(fr)
+                except (ValueError, IndexError) as ex:
+                    return 'PGN126996.frames:%s' % ex
+                n += 1
+                if payload != want:
+                    k = next((i for i in range(min(len(payload), len(want))) if payload[i] != want[i]), min(len(payload), len(want)))
+                    return 'PGN126996.product_information:byte %d of the answer is %s, the published layout with the configured strings has %s (length %d / %d)' % (
+                        k, '%02x' % payload[k] if k < len(payload) else '-', '%02x' % want[k] if k < len(want) else '-', len(payload), len(want))
+            return None if n == 2 else 'PGN126996.answers:%d answers to two requests' % n
+        for fs in ('w64', 'w32'):
+            vlib.correspond(run, 'prodinfo-progmem-' + fs, 'h_node', fs, 'NODE', pcases, prod_oracle, None, model_args=[fs])
